@@ -2,7 +2,7 @@
 //! from normal context and from inside the signal's own handler (signal blocked).
 //!
 //! Output, one line per (signal, mode):  `<sig> <mode> <outcome>`
-//!   mode: native | emu | emu_in_handler | emu_ignored | emu_foreign | emu_blocked | emu_thread | name
+//!   mode: native | emu | emu_in_handler | emu_ignored | emu_foreign | emu_blocked | emu_thread | emu_otherpending | name
 //!   outcome: sig:N (terminated by N) | stop:N | exit:42 (continued, emulate returned Ok)
 //!            | exit:43 (emulate returned Err) | timeout        (mode name: the name or `-`)
 use crate::forked::{reset_all_dispositions, run_child, Outcome};
@@ -96,6 +96,29 @@ pub fn emulated_from(sig: i32, how: i32) -> Outcome {
     )
 }
 
+/// another signal is blocked and pending when the emulation is asked for (the sigwait / signalfd pattern): the
+/// outcome is still that of the emulated signal
+pub fn emulated_other_pending(sig: i32) -> Outcome {
+    run_child(
+        move || unsafe {
+            reset_all_dispositions();
+            let other = if sig == libc::SIGUSR2 { libc::SIGUSR1 } else { libc::SIGUSR2 };
+            let mut set: libc::sigset_t = std::mem::zeroed();
+            libc::sigemptyset(&mut set);
+            libc::sigaddset(&mut set, other);
+            libc::sigprocmask(libc::SIG_BLOCK, &set, std::ptr::null_mut());
+            libc::raise(other);
+            let r = signal_hook::low_level::emulate_default_handler(sig);
+            if r.is_ok() {
+                42
+            } else {
+                43
+            }
+        },
+        Duration::from_secs(5),
+    )
+}
+
 /// the emulation is asked for on a second thread while the main thread sleeps with the signal unblocked
 pub fn emulated_on_thread(sig: i32) -> Outcome {
     run_child(
@@ -136,6 +159,7 @@ pub fn main(args: &[String]) -> i32 {
             println!("{} emu_foreign {}", s, emulated_from(s, 2).text());
             println!("{} emu_blocked {}", s, emulated_from(s, 3).text());
             println!("{} emu_thread {}", s, emulated_on_thread(s).text());
+            println!("{} emu_otherpending {}", s, emulated_other_pending(s).text());
         }
     }
     0
